@@ -1255,9 +1255,10 @@ def suite_shapes_rich(ctx: Ctx, drv, n_per_kind):
         kind = decl["kind"]
         real, why = classify_real(kind, lambda: (build_class(decl), {}))
         case = {"suite": "shape-rich", "decl": decl}
-        extras = sorted({k for f in decl["fields"] for k, v in f.items()
-                         if k not in ("name", "ty", "default") and v not in (False, None, "none", "plain", "regular", "auto", "unset", True)
-                         or (k == "init" and v is False)})
+        neutral = {"kw_only": False, "init": True, "pseudo": "none", "alias": None, "req": "plain", "cat": "regular",
+                   "pk": False, "autoinc": "auto", "nullable": "unset", "fk": False, "server_default": False,
+                   "ctx_default": False, "rel": "none"}
+        extras = sorted({k for f in decl["fields"] for k, v in f.items() if k in neutral and v != neutral[k]})
         ctx.note_case(case, nontrivial="input" in real, kind=f"rich-{kind}-" + ("shape" if "input" in real else "refused"))
         for e in extras:
             ctx.dist[f"extra-{kind}-{e}"] += 1
